@@ -38,7 +38,31 @@ def fixed_specs(tier, ctx):
     return [{"cfg": {"klass": "plain"}, "descs": descs, "ops": opl}]
 
 
+def _gen_marathon(rng, ctx):
+    """One long-lived process, a few small descriptions, hundreds of solves: anything that
+    only shows on the N-th repetition or after accumulated work."""
+    from .. import pools
+    descs = []
+    for i in range(3):
+        g = pools.stopping_game(rng, 4, 7) if i else pools.tiny_game(rng)
+        descs.append({"desc": enc(g), "tag": "marathon%d" % i})
+    opl = [{"op": "new", "id": "h%d" % i, "d": i, "prune": bool(i % 2)} for i in range(3)]
+    for _ in range(rng.randint(150, 400)):
+        r = rng.random()
+        if r < 0.5:
+            opl.append({"op": "solve", "h": "h%d" % rng.randrange(3)})
+        elif r < 0.85:
+            opl.append({"op": "solve_fresh", "d": rng.randrange(3), "prune": rng.random() < 0.6})
+        elif r < 0.95:
+            opl.append({"op": "toggle", "h": "h%d" % rng.randrange(3)})
+        else:
+            opl.append({"op": "batch", "ds": rng.sample(range(3), rng.randint(1, 3))})
+    return {"cfg": {"klass": "marathon"}, "descs": descs, "ops": opl}
+
+
 def gen(rng, tier, ctx):
+    if rng.random() < 0.012:
+        return _gen_marathon(rng, ctx)
     klass = rng.choices(["plain", "faulty", "interrupt"], [0.4, 0.35, 0.25])[0]
     nd = rng.choice([1, 1, 2, 2, 3, 4])
     descs = []
